@@ -54,6 +54,16 @@ CHECKS = {
              text="Decides completeness of staleness marking and measure propagation over the mutator table and that rewrites see only usable entries. Encodings and roll-up arithmetic are not decided.", ref="§5 C28"),
  "C29": dict(tech="T-PAIR matrix on the vector index, field-read effect of the declared metric, sibling liveness-validation rule between index-consuming operators",
              text="Decides which mutators keep the vector index current (none remove: five known findings), whether the declared metric is used at all (known finding) and that the consumer validates hits (fixed). Ranking and recall are not decided.", ref="§5 C29"),
+ "C01": dict(tech="branch-local callee classification in the multi-label scan, planner site rules (labels passed, residual kept), HIR arm sibling comparison of the six evaluator copies with a frozen, condition-checked exception table",
+             text="Decides three structural clauses of read semantics: conjunctive multi-label scan (known finding: pinned by an existing test), index scans keep all labels and a residual, evaluator siblings agree. The rest of openCypher semantics is not decided.", ref="§5 C01"),
+ "C04": dict(tech="dominance / branch rules in DeleteOperator and MergeOperator MIR, use-def check for discarded store Results with an automatically recognised rollback-on-error idiom, field-read inventory for row-map-only decisions",
+             text="Decides refusal of connected plain DELETE, that write operators surface store errors, that MERGE always searches before creating, and which existence decisions ignore the column store (known finding).", ref="§5 C04"),
+ "C05": dict(tech="must-pass-through of a compensating store write on every error exit of each write driver (callers of dyn next_batch_mut outside the operator tree); shared discarded-Result rule",
+             text="Decides the necessary condition for statement atomicity — some compensation on every error exit after the first pull — which fails today (known finding), and that failures are not swallowed.", ref="§5 C05"),
+ "C25": dict(tech="consumer classification of every numeric parse Result in the parser (including call sites of the generic parse helper), cast sinks on parsed numbers",
+             text="Decides the numeric clause: every numeral/bound parse is surfaced as an error, never unwrapped, defaulted or dropped, and parsed numbers are not narrowed. The no-panic clause over pest pairs is reported as inventory only.", ref="§5 C25"),
+ "C35": dict(tech="HIR arm facts for every match on Expression::Parameter and for substitute_expr (variant coverage, recursion into Expression-typed children from ADT facts), order of substitution vs planning",
+             text="Decides the only ways a parameterised run could silently differ: a defaulting evaluation arm, inexact/non-recursive substitution, or planning before substitution.", ref="§5 C35"),
 }
 
 NA = {
